@@ -43,7 +43,7 @@ def patchSeq : List Char → G (String × String) String → List String
     | .ok g1 => "ok" :: patchSeq rest g1
     | .error _ => "EnvironmentAlreadyPatched" :: patchSeq rest g
   | _ :: rest, g =>
-    let r := step (O := Unit) id decodeF (fun _ => false) (fun _ spec => specProg spec) (fun _ _ => none) () g "x/"
+    let r := step (O := Unit) id decodeF (fun _ => false) (fun _ spec => specProg spec) (fun _ _ => none) colourOfCode (fun _ l => l) () g "x/"
     (match r.2 with | .ok _ => "ok" | .error _ => "EnvironmentNotPatched") :: patchSeq rest r.1
 
 def handle (op : String) (args : List String) : String :=
@@ -54,7 +54,7 @@ def handle (op : String) (args : List String) : String :=
   | "seqcache", mode :: jobs :: sched :: specs =>
     let proj : String × String → String × String := if mode == "lossy" then (fun k => (k.1, "")) else id
     let g0 : G (String × String) String := { patched := true, cache := [] }
-    showRes (checkAll (O := Unit) proj decodeF (fun _ => false) (fun _ spec => specProg spec) (fun _ _ => none) () jobs.toNat! g0 specs (parseSched sched)).2
+    showRes (checkAll (O := Unit) proj decodeF (fun _ => false) (fun _ spec => specProg spec) (fun _ _ => none) colourOfCode (fun _ l => l) () jobs.toNat! g0 specs (parseSched sched)).2
   | "patchseq", [ops] => ",".intercalate (patchSeq ops.toList fresh)
   | _, _ => "bad-op"
 
